@@ -67,6 +67,15 @@ class Rewriter(ast.NodeTransformer):
         )
         return ast.copy_location(new, node)
 
+    def visit_BinOp(self, node):
+        self.generic_visit(node)
+        # "literal format" % value: goes through a hook so that a symbolic value is formatted symbolically
+        if isinstance(node.op, ast.Mod) and isinstance(node.left, ast.Constant) and isinstance(node.left.value, str):
+            new = ast.Call(func=ast.Attribute(value=ast.Name(id=HOOK, ctx=ast.Load()), attr="strmod", ctx=ast.Load()),
+                           args=[node.left, node.right], keywords=[])
+            return ast.copy_location(new, node)
+        return node
+
     def visit_Assign(self, node):
         self.generic_visit(node)
         # d[k] = v with a single subscript target goes through a hook, so that dictionaries can be keyed by
